@@ -469,3 +469,155 @@ package fzf
 //@ ensures len(cl.chunks) == old(len(cl.chunks)) || len(cl.chunks) == old(len(cl.chunks)) + 1
 //@ ensures forall(k, 0, old(len(cl.chunks)), cl.chunks[k] == old(cl.chunks)[k])
 //@ ensures len(cl.chunks) >= 1 && cl.chunks[len(cl.chunks)-1] != nil
+
+// ---------------------------------------------------------------- pattern evaluation
+// Every matcher (algo.Algo) is called as a pure effect: its Result is a function of
+// (case flag, normalize flag, direction, text, pattern, withPos) - not of the slab (C05) - and a reported
+// range satisfies 0 <= Start <= End.  accepts(...) is "Start >= 0" of that function.
+//@ spec func accepts(f algo.Algo, cs bool, nz bool, fwd bool, text *util.Chars, pat []rune, wp bool) bool = fvcall(f, 0, cs, nz, fwd, text, pat, wp) >= 0
+
+// iter tries the tokens in order: the term matches the item iff the matcher accepts some token, and the
+// reported range is the first accepting token's range shifted by that token's offset in the line.
+//@ func Pattern.iter
+//@ property C01 C10
+//@ mathint int32 -- character offsets within one input line are assumed to fit in 31 bits
+//@ requires forall(k, 0, len(tokens), tokens[k].text != nil && tokens[k].prefixLength >= 0)
+//@ effect call pfun requires arg3 != nil pure(0,1,2,3,4,5) assumes (r0.Start >= 0 ==> r0.Start <= r0.End) && (r1 != nil ==> fresh(r1) && fresh(*r1))
+//@ ensures (r0[0] >= 0) == exists(k, 0, len(tokens), accepts(pfun, caseSensitive, normalize, forward, tokens[k].text, pattern, withPos))
+//@ ensures r0[0] < 0 ==> r0[0] == -1 && r0[1] == -1 && r1 == 0 && r2 == nil
+//@ ensures r0[0] >= 0 ==> exists(k, 0, len(tokens), accepts(pfun, caseSensitive, normalize, forward, tokens[k].text, pattern, withPos) && r0[0] == fvcall(pfun, 0, caseSensitive, normalize, forward, tokens[k].text, pattern, withPos) + tokens[k].prefixLength && r0[1] == fvcall(pfun, 1, caseSensitive, normalize, forward, tokens[k].text, pattern, withPos) + tokens[k].prefixLength && forall(j, 0, k, !accepts(pfun, caseSensitive, normalize, forward, tokens[j].text, pattern, withPos)))
+//@ loop 1
+//@   invariant forall(j, 0, iter, !accepts(pfun, caseSensitive, normalize, forward, tokens[j].text, pattern, withPos))
+
+// transformInput (--nth): tokenises and selects fields, memoised per pattern revision.  Its result is used
+// as an uninterpreted (pure) token list here; Tokenize/Transform themselves are proved under C10.
+//@ func Pattern.transformInput trusted
+//@ pure
+//@ requires p != nil && item != nil
+//@ ensures forall(k, 0, len(result), result[k].text != nil && result[k].prefixLength >= 0)
+
+// Whole-line search (no --nth): a term hits when its matcher accepts the item's text.
+//@ spec func termHit(p *Pattern, text *util.Chars, ts []term, t int, wp bool) bool = accepts(mapget(p.procFun, ts[t].typ), ts[t].caseSensitive, ts[t].normalize, p.forward, text, ts[t].text, wp)
+// a literal holds when the term matches, or - for a negated term - when it does not
+//@ spec func litOK(p *Pattern, text *util.Chars, ts []term, t int, wp bool) bool = termHit(p, text, ts, t, wp) != ts[t].inv
+// OR inside a set: some literal among the first n terms of the set holds
+//@ spec func anyOK(p *Pattern, text *util.Chars, ts []term, n int, wp bool) bool = n <= 0 ? false : (anyOK(p, text, ts, n - 1, wp) || litOK(p, text, ts, n - 1, wp)) decreases n
+//@ spec func setOK(p *Pattern, text *util.Chars, s int, wp bool) bool = anyOK(p, text, p.termSets[s], len(p.termSets[s]), wp)
+
+//@ lemma any_mono(p *Pattern, text *util.Chars, ts []term, a int, b int, wp bool) induction b
+//@ property C01
+//@ requires 0 <= a && a <= b && anyOK(p, text, ts, a, wp)
+//@ ensures anyOK(p, text, ts, b, wp)
+// number of satisfied sets among the first s
+//@ spec func cntOK(p *Pattern, text *util.Chars, s int, wp bool) int = s <= 0 ? 0 : cntOK(p, text, s - 1, wp) + (setOK(p, text, s - 1, wp) ? 1 : 0) decreases s
+
+// Extended search: one offset per satisfied term set, so "all sets satisfied" is len(offsets) == len(termSets):
+// AND over sets, OR inside a set, negation per term.  (Stated for whole-line search; with --nth the same
+// code runs over the field tokens.)
+//@ func Pattern.extendedMatch
+//@ property C01
+//@ requires p != nil && item != nil && len(p.nth) == 0 && p.procFun != nil
+//@ ensures len(r0) == cntOK(p, &item.text, len(p.termSets), withPos)
+//@ use @"offset, currentScore = off, score" any_mono(p, &item.text, termSet, cur + 1, len(termSet), withPos)
+//@ loop 1
+//@   invariant len(input) == 1 && input[0].text == &item.text && input[0].prefixLength == 0 && fresh(input)
+//@   invariant len(offsets) == cntOK(p, &item.text, iter, withPos) && (offsets == nil || fresh(offsets))
+//@   invariant withPos ==> allPos != nil && fresh(allPos) && fresh(*allPos)
+//@ loop 2
+//@   invariant len(input) == 1 && input[0].text == &item.text && input[0].prefixLength == 0 && fresh(input)
+//@   invariant matched == anyOK(p, &item.text, termSet, iter, withPos)
+//@   use any_mono(p, &item.text, termSet, iter, len(termSet), withPos)
+//@   invariant withPos ==> allPos != nil && fresh(allPos) && fresh(*allPos)
+//@ loop 3
+//@   invariant withPos && allPos != nil && fresh(allPos) && fresh(*allPos)
+
+//@ lemma cnt_all(p *Pattern, text *util.Chars, s int, wp bool) induction s
+//@ property C01
+//@ requires 0 <= s
+//@ ensures 0 <= cntOK(p, text, s, wp) && cntOK(p, text, s, wp) <= s
+//@ ensures (cntOK(p, text, s, wp) == s) == forall(k, 0, s, setOK(p, text, k, wp))
+
+// Non-extended search: the single matcher (fuzzy or exact) decides.
+//@ func Pattern.basicMatch
+//@ property C01
+//@ requires p != nil && item != nil && len(p.nth) == 0 && (p.fuzzy ==> p.fuzzyAlgo != nil)
+//@ ensures p.fuzzy ==> (r0[0] >= 0) == accepts(p.fuzzyAlgo, p.caseSensitive, p.normalize, p.forward, &item.text, p.text, withPos)
+//@ ensures !p.fuzzy ==> (r0[0] >= 0) == accepts(algo.ExactMatchNaive, p.caseSensitive, p.normalize, p.forward, &item.text, p.text, withPos)
+
+// buildResult computes the sort keys of an accepted item; here only "it is a result for this item" matters.
+//@ func buildResult trusted
+//@ requires item != nil
+//@ ensures result.item == item
+
+// hit(p, item): the item satisfies the query - every term set is satisfied (extended mode) / the single
+// matcher accepts it (--no-extended).
+//@ spec func hit(p *Pattern, item *Item, wp bool) bool = p.extended ? forall(k, 0, len(p.termSets), setOK(p, &item.text, k, wp)) : accepts(p.fuzzy ? p.fuzzyAlgo : algo.ExactMatchNaive, p.caseSensitive, p.normalize, p.forward, &item.text, p.text, wp)
+//@ opaque hit
+
+// MatchItem: an item is reported iff it satisfies the query.
+//@ func Pattern.MatchItem
+//@ property C01
+//@ requires p != nil && item != nil && len(p.nth) == 0 && p.procFun != nil && (p.fuzzy ==> p.fuzzyAlgo != nil)
+//@ ensures p.extended ==> (r0 != nil) == forall(k, 0, len(p.termSets), setOK(p, &item.text, k, withPos))
+//@ ensures !p.extended && p.fuzzy ==> (r0 != nil) == accepts(p.fuzzyAlgo, p.caseSensitive, p.normalize, p.forward, &item.text, p.text, withPos)
+//@ ensures !p.extended && !p.fuzzy ==> (r0 != nil) == accepts(algo.ExactMatchNaive, p.caseSensitive, p.normalize, p.forward, &item.text, p.text, withPos)
+//@ ensures (r0 != nil) == hit(p, item, withPos)
+//@ ensures r0 != nil ==> fresh(r0) && r0.item == item
+//@ use cnt_all(p, &item.text, len(p.termSets), withPos)
+
+// shown(p, item): the item satisfies the query (and is not on the deny list of excluded items)
+//@ spec func shown(p *Pattern, item *Item) bool = hit(p, item, p.withPos) && !maphas(p.denylist, (&item.text).Index)
+//@ opaque shown
+// number of shown items among the first n of a chunk
+//@ spec func nshown(p *Pattern, c *Chunk, n int) int = n <= 0 ? 0 : nshown(p, c, n - 1) + (shown(p, &c.items[n - 1]) ? 1 : 0) decreases n
+
+// matchChunk: the result holds exactly the chunk's items (or the items of the narrowed-down previous result)
+// that satisfy the query: nothing that fails the query is reported, every candidate that satisfies it is
+// reported, and (chunk scan) the number of results is the number of satisfying items, so none is reported twice.
+//@ func Pattern.matchChunk
+//@ property C01
+//@ requires p != nil && chunk != nil && 0 <= chunk.count && chunk.count <= 100 && len(p.nth) == 0 && p.procFun != nil && (p.fuzzy ==> p.fuzzyAlgo != nil)
+//@ requires forall(k, 0, len(space), space[k].item != nil)
+//@ ensures forall(j, 0, len(result), result[j].item != nil && shown(p, result[j].item))
+//@ ensures space == nil ==> len(result) == nshown(p, chunk, chunk.count)
+//@ ensures space == nil ==> forall(k, 0, chunk.count, shown(p, &chunk.items[k]) ==> exists(j, 0, len(result), result[j].item == &chunk.items[k]))
+//@ ensures space != nil ==> forall(k, 0, len(space), shown(p, space[k].item) ==> exists(j, 0, len(result), result[j].item == space[k].item))
+//@ loop 1
+//@   invariant 0 <= idx && idx <= chunk.count && fresh(matches) && len(matches) == nshown(p, chunk, idx)
+//@   invariant forall(j, 0, len(matches), matches[j].item != nil && shown(p, matches[j].item))
+//@   invariant forall(k, 0, idx, shown(p, &chunk.items[k]) ==> exists(j, 0, len(matches), matches[j].item == &chunk.items[k]))
+//@   decreases chunk.count - idx
+//@ loop 2
+//@   invariant fresh(matches)
+//@   invariant forall(j, 0, len(matches), matches[j].item != nil && shown(p, matches[j].item))
+//@   invariant forall(k, 0, iter, shown(p, space[k].item) ==> exists(j, 0, len(matches), matches[j].item == space[k].item))
+// (hint only: mentions shown() of the candidate just processed so that its definition is unfolded there)
+//@   assert iter > 0 ==> shown(p, space[iter-1].item) == shown(p, space[iter-1].item)
+//@ loop 3
+//@   invariant 0 <= idx && idx <= chunk.count && fresh(matches) && len(matches) == nshown(p, chunk, idx)
+//@   invariant forall(j, 0, len(matches), matches[j].item != nil && shown(p, matches[j].item))
+//@   invariant forall(k, 0, idx, shown(p, &chunk.items[k]) ==> exists(j, 0, len(matches), matches[j].item == &chunk.items[k]))
+//@   decreases chunk.count - idx
+//@ loop 4
+//@   invariant fresh(matches)
+//@   invariant forall(j, 0, len(matches), matches[j].item != nil && shown(p, matches[j].item))
+//@   invariant forall(k, 0, iter, shown(p, space[k].item) ==> exists(j, 0, len(matches), matches[j].item == space[k].item))
+// (hint only: mentions shown() of the candidate just processed so that its definition is unfolded there)
+//@   assert iter > 0 ==> shown(p, space[iter-1].item) == shown(p, space[iter-1].item)
+
+// ---------------------------------------------------------------- building the pattern
+// parseTerms / buildCacheKey work on strings (splitting, prefix and suffix operators, case
+// folding): string-library semantics are outside the contracts, they are used here as opaque functions.
+//@ func parseTerms trusted
+//@ func Pattern.buildCacheKey trusted
+
+// A newly built pattern carries the options it was built with, and its term-kind table maps every term kind
+// to the documented matcher: plain -> the fuzzy algorithm, 't -> exact, 't' -> exact at word boundaries,
+// ^t -> prefix, t$ -> suffix, ^t$ -> equal.
+//@ func BuildPattern
+//@ property C01
+//@ requires patternCache != nil
+//@ modifies map(patternCache)
+//@ ensures fresh(result) ==> result.fuzzy == fuzzy && result.fuzzyAlgo == fuzzyAlgo && result.extended == extended && result.forward == forward && result.withPos == withPos && result.denylist == denylist && result.nth == nth
+//@ ensures fresh(result) ==> result.procFun != nil && mapget(result.procFun, termFuzzy) == fuzzyAlgo && mapget(result.procFun, termEqual) == algo.EqualMatch && mapget(result.procFun, termExact) == algo.ExactMatchNaive && mapget(result.procFun, termExactBoundary) == algo.ExactMatchBoundary && mapget(result.procFun, termPrefix) == algo.PrefixMatch && mapget(result.procFun, termSuffix) == algo.SuffixMatch
+//@ ensures fresh(result) && !extended ==> result.normalize ==> normalize
